@@ -31,9 +31,9 @@ RULE = (
     "rule that can express its arguments; x strict_slashes x merge_slashes x redirect_defaults x every insertion "
     "order; every path of the generated path set (slash forms, non-ASCII / space / percent / '?#' witnesses, "
     "'//evil.com' prefixed forms) x methods is matched on an http adapter at script root '/'; every (path, method) "
-    "that redirects is re-run on further bindings (https+port+/app, subdomain, ws with websocket rules, "
+    "that redirects is re-run on further bindings (https+port+/app, subdomain, ws and wss+port with websocket rules, "
     "host_matching, default_subdomain, bind_to_environ with host / script / path / query taken from a WSGI environ) "
-    "and query forms (none / str / dict / MultiDict, through bind() or match()): all 26 combinations for the map's "
+    "and query forms (none / str / dict / MultiDict, through bind() or match()): all 30 combinations for the map's "
     "first configuration (thorough: every configuration of maps <= 2 rules and of all canonicalisation-group maps), otherwise the plain one plus one "
     "further binding per configuration in turn; each redirect is followed as a server would (percent-decode once, "
     "query string forwarded) until it stops. evaluation = one (map, config, order, binding, path, method, query "
@@ -304,6 +304,7 @@ BINDINGS = [
     ("https", "example.com:8080", "/app", "", "plain"),
     ("http", "Example.COM", "/app/", "sub", "sub"),
     ("ws", "example.com", "/app/", "", "ws"),
+    ("wss", "example.com:8443", "/", "", "ws"),         # secure websocket: redirects built by build() keep wss
     ("http", "example.com", "/app", "", "host"),        # Map(host_matching=True), every rule host="example.com"
     ("https", "example.com", "/", "www", "defsub"),     # Map(default_subdomain="www"), bind(subdomain=None)
     ("https", "example.com:8080", "/app", "sub", "env"),  # bind_to_environ: host, script, path, query from a WSGI environ
